@@ -289,6 +289,34 @@ def r11_4(prog, out):
             out.holds(key, "", "Weak<Topic>")
         else:
             out.violation(key, "", "%s.%s is %s, expected Weak<Topic>" % (k, f, short_ty(fty)))
+    # no request that can park for an unbounded time holds a strong reference while it is parked: in a consumer loop's body
+    # no local of type (Option<)Arc<Topic> is alive when the loop is entered (a blocked Pull / an open StreamingPull would keep
+    # a deleted topic alive, and its subscriptions would go on reporting it)
+    from consumers import find_consumer_loops
+    for cl in find_consumer_loops(prog):
+        bi = prog.info(cl.body)
+        body = bi.body
+        key = "parked-holder:%s" % cl.label
+        held = None
+        for i in range(1, len(body.locals)):
+            ty = body.local_ty(i) or ""
+            if strong not in ty or ty.startswith("&"):
+                continue
+            defs = bi.defs.get(i, [])
+            if not defs or not all(bi.cfg.dominates(d[0], cl.header) and d[0] != cl.header and d[0] not in cl.blocks for d in defs):
+                continue
+            dead = [blk.idx for blk in body.blocks if not blk.cleanup and any(st.k == "dead" and getattr(st, "local", None) == i for st in blk.stmts)]
+            moved = [blk.idx for blk in body.blocks if not blk.cleanup and blk.term.k in ("call", "drop") and blk.idx not in cl.blocks and (
+                (blk.term.k == "drop" and blk.term.j.get("place", {}).get("l") == i))]
+            if any(bi.cfg.dominates(x, cl.header) for x in dead + moved):
+                continue
+            held = (i, defs[0][0])
+            break
+        if held is not None:
+            out.violation(key, bi.loc(held[1]), "a strong Arc<Topic> (local _%d) is alive while this consumer waits for messages: a blocked Pull / open StreamingPull keeps a "
+                          "deleted topic alive, so its subscriptions keep reporting the old topic instead of the deleted-topic sentinel" % held[0])
+        else:
+            out.holds(key, prog.loc(cl.body), "no strong topic handle is alive across the wait")
     # no task keeps a strong topic reference alive across its lifetime: the spawned actor loops do not capture Arc<Topic>
     for actor in prog.actors:
         si = prog.info(actor.start)
@@ -445,6 +473,24 @@ def r11_6(prog, out):
                                   "Delete removes a newer %s of the same name" % label)
         if n == 0:
             out.undecided("once-only:%s-manager-removal" % label, "", "no handler of the %s actor removes the manager entry" % label)
+        # .. and nobody else releases the name: the function(s) that remove from the manager map are only called from the
+        # actor's handlers (a handle method that unregisters `up front` does so by name, for whatever incarnation holds it)
+        removers = {b for b, e in prog.bodies_with_effect(cell, L.REMOVE_KINDS, direct=True)}
+        handler_bodies = set()
+        for vname in actor.variants:
+            for tid in R.variant_targets(actor, vname):
+                handler_bodies |= set(prog.cone(tid, follow=("call", "closure")))
+        for cid, cb in prog.facts.bodies.items():
+            if cb.crate != "lib" or cid in removers:
+                continue
+            ci = prog.info(cid)
+            for cbb, ct in ci.calls(lambda c: prog.qual(cb, c.target) in removers):
+                key2 = "name-released-by:%s:%s" % (label, prog.short(cid))
+                if cid in handler_bodies:
+                    out.holds(key2, ci.loc(cbb), "released by the %s actor's own handler" % label)
+                else:
+                    out.violation(key2, ci.loc(cbb), "the %s's name is removed from the manager here, outside the actor's once-only delete: it is removed by name, for "
+                                  "whichever incarnation holds it, and out of order with the detach from the topic" % label)
     # (2) the topic-side detach: identity-checked, or only requested from under the subscription actor's once-only guard
     detach_variant = None
     for vname in R.topic_actor.variants:
